@@ -45,6 +45,7 @@ type Result struct {
 	States       []uint64       `json:"-"` // distinct state digests reached
 	Log          []string       `json:"log,omitempty"`
 	Inconclusive int            `json:"inconclusive,omitempty"`
+	Obs          map[string]string `json:"obs,omitempty"` // engine B, Config.Observe: plain facts about the end of the run
 	EvCmds       map[int][]string `json:"ev_cmds,omitempty"` // engine B, Config.Count: event index -> database commands of its exchange
 }
 
